@@ -19,9 +19,9 @@ KEYSPACE_PERSIST = "fjall::keyspace::Keyspace::persist"
 PARTITION_RANGE = "fjall::partition::PartitionHandle::range"
 PARTITION_PREFIX = "fjall::partition::PartitionHandle::prefix"
 PARTITION_GET = "fjall::partition::PartitionHandle::get"
-HASHSET_INSERT = "std::collections::hash::set::HashSet::<T, S>::insert"
-HASHSET_REMOVE = "std::collections::hash::set::HashSet::<T, S>::remove"
-HASHSET_CONTAINS = "std::collections::hash::set::HashSet::<T, S>::contains"
+HASHSET_INSERT = "std::collections::hash::set::HashSet::<T, S, A>::insert"
+HASHSET_REMOVE = "std::collections::hash::set::HashSet::<T, S, A>::remove"
+HASHSET_CONTAINS = "std::collections::hash::set::HashSet::<T, S, A>::contains"
 THREAD_SPAWN = "std::thread::functions::spawn"
 TOKIO_SPAWN = "tokio::task::spawn::spawn"
 TOKIO_SPAWN_BLOCKING = "tokio::task::blocking::spawn_blocking"
